@@ -849,6 +849,36 @@ Proof.
   repeat split; vm_compute; reflexivity.
 Qed.
 
+(* inputlookup with ALL client options and at every cursor position *)
+Theorem inputlookup_open_iff D o cursor f p :
+  inputlookup_open D o cursor f = Some p <-> inputlookup_ok f = true /\ p = site_inputlookup D f.
+Proof.
+  unfold inputlookup_open. destruct (inputlookup_ok f); split.
+  - intros E. inversion E. auto.
+  - intros [_ ->]. reflexivity.
+  - discriminate.
+  - intros [E _]. discriminate.
+Qed.
+
+Theorem inputlookup_open_confined D o cursor f p : is_dir D ->
+  inputlookup_open D o cursor f = Some p -> confined D p = true.
+Proof.
+  intros HD E. apply inputlookup_open_iff in E. destruct E as [Hok ->].
+  apply site_inputlookup_confined; auto.
+Qed.
+
+Theorem inputlookup_open_options_irrelevant D o c o' c' f :
+  inputlookup_open D o c f = inputlookup_open D o' c' f.
+Proof. reflexivity. Qed.
+
+Theorem lookup_upload_open_confined D name gz ow ex p : is_dir D ->
+  lookup_upload_open D name gz ow ex = Some p -> confined D p = true.
+Proof.
+  intros HD. unfold lookup_upload_open. destruct (upload_ok name) eqn:Hok; [|discriminate].
+  destruct (ex && negb ow); [discriminate|]. intros E. inversion E. subst.
+  apply site_lookup_upload_confined; auto.
+Qed.
+
 (* the validator rejects every witness of the pre-fix refutations, and accepts ordinary names *)
 Example validator_rejects_witnesses :
   safe_component w_up3 = false /\ safe_component w_up2csv = false /\ safe_component w_up6 = false /\
@@ -859,6 +889,14 @@ Example validator_sat :
   upload_ok [97;46;99;115;118] = true /\ inputlookup_ok [97;46;99;115;118] = true /\
   index_ok [105;45;49;46;120] = true /\ tagkey_ok [46;46;46] = true.
 Proof. repeat split; vm_compute; reflexivity. Qed.
+
+Theorem inputlookup_cursor0_refuted : exists D o f p,
+  is_dir D /\ il_start o <> 0 /\ inputlookup_open D o (il_start o) f = None /\
+  inputlookup_open_cursor0 D o (il_start o) f = Some p /\ confined D p = false.
+Proof.
+  exists wD, (mk_il 1 1000000000 false false false true), w_up2csv, (site_inputlookup wD w_up2csv).
+  split; [exact wD_is_dir|]. split; [discriminate|]. repeat split; vm_compute; reflexivity.
+Qed.
 
 (* non-vacuity of the guards *)
 Example guard_upload_sat : stays_within 1 (upload_name [97;98] false) = true /\ upload_ok [97;98] = true /\ upload_ok_v0 [97;98] = true.
